@@ -165,8 +165,8 @@ def check_qfree_pairing(ctx):
         ok = f2 is not None and any(A.call_name(x) == call and len(x.args) == 1 and A.norm(x.args[0]) == "self" for x in A.calls_in(f2))
         ctx.check("C09.F", f"Qubit.{meth}:updates-active-list", ok, f"Qubit.{meth} does not {call}(self) on the connection's memory manager", qc.loc(f2) if f2 else "", trivial=True)
     st_ = qc.setters.get("active")
-    ok = st_ is not None and any(A.is_self_attr(x.func, "_deactivate") for x in A.calls_in(st_)) and any(A.is_self_attr(x.func, "_activate") for x in A.calls_in(st_))
-    ctx.check("C09.F", "Qubit.active.setter:dispatches", ok, "the `active` setter does not call _activate/_deactivate", qc.loc(st_) if st_ else "", trivial=True)
+    ok, why_ = _exec_qubit_handle(ctx, qc)["setter"]
+    ctx.check("C09.F", "Qubit.active.setter:dispatches", ok, f"the `active` setter does not keep the memory manager's list of active qubits in step with the flag: {why_}", qc.loc(st_) if st_ else "", trivial=True)
     init = qc.methods.get("__init__")
     ok = init is not None and any(A.is_self_attr(x.func, "_activate") for x in A.calls_in(init))
     ctx.check("C09.F", "Qubit.__init__:activates", ok, "the Qubit constructor no longer activates the handle (the typestate model assumes it does)", qc.loc(init) if init else "", trivial=True)
@@ -384,15 +384,76 @@ def check_new_handle_ids(ctx):
     # the Qubit constructor takes the lowest unused id when none is given, and activates immediately
     qc = repo.get_class("netqasm.sdk.qubit", "Qubit")
     init = qc.methods["__init__"]
-    ok = False
-    for st in init.body:
-        if isinstance(st, ast.If) and A.norm(st.test) == "virtual_addressisNone":
-            ok = any(isinstance(s2, (ast.Assign, ast.AnnAssign)) and A.norm(s2.value) == "self.builder.new_qubit_id()" for s2 in st.body) and \
-                any(isinstance(s2, (ast.Assign, ast.AnnAssign)) and s2.value is not None and A.norm(s2.value) == "virtual_address" for s2 in st.orelse)
-    ctx.check("C09.I", "Qubit.__init__:lowest-unused-id-when-none-given", ok, "the Qubit constructor does not take builder.new_qubit_id() when no virtual address is given", qc.loc(init))
+    ok, why_ = _exec_qubit_handle(ctx, qc)["init"]
+    ctx.check("C09.I", "Qubit.__init__:lowest-unused-id-when-none-given", ok, f"the Qubit constructor does not take builder.new_qubit_id() exactly when no virtual address is given, or does not register the handle: {why_}", qc.loc(init))
     nq = b.methods.get("new_qubit_id")
     ok = nq is not None and any(A.norm(r.value) == "self._mem_mgr.get_new_qubit_address()" for r in A.returns(nq))
     ctx.check("C09.I", "Builder.new_qubit_id:from-memory-manager", ok, "Builder.new_qubit_id does not return the memory manager's lowest unused id", b.loc(nq) if nq else "", trivial=True)
+
+
+def _exec_qubit_handle(ctx, qc):
+    """Qubit.__init__ and the `active` setter executed by the checker's interpreter against a modelled connection / builder / memory
+    manager.  -> {"init": (ok, why), "setter": (ok, why)}"""
+    cached = getattr(ctx, "_c09_qubit_handle", None)
+    if cached is not None:
+        return cached
+    from .. import circuit as C
+    repo = ctx.repo
+
+    mmc = repo.get_class("netqasm.sdk.memmgr", "MemoryManager")
+    bc = repo.get_class("netqasm.sdk.builder", "Builder")
+    res = {"init": (True, ""), "setter": (True, "")}
+    init = qc.methods.get("__init__")
+    setter = qc.setters.get("active")
+
+    def world(live_ids):
+        """the repository's own Builder / MemoryManager (executed like everything else), with handles of the given ids already live"""
+        mem = C.object_from_init(repo, mmc, {}, kind="obj")
+        bld = C.object_from_init(repo, bc, {"_mem_mgr": mem}, kind="obj")
+        conn = C.Obj(None, {"builder": bld, "_builder": bld, "node_name": "n"})
+        for i_ in live_ids:
+            mem.fields.setdefault("_active_qubits", []).append(C.Obj(qc, {"_qubit_id": i_, "_active": True, "_conn": conn}, "obj"))
+        emitted = []
+        sc = C.Scenario()
+        sc.method_overrides = {}
+        return mem, bld, conn, emitted, sc
+
+    def count_of(mem, o):
+        return sum(1 for x in mem.fields.get("_active_qubits", []) if x is o)
+
+    try:
+        for live, va, add, want_id in (([], None, True, 0), ([0], None, True, 1), ([0, 1, 3], None, False, 2), ([1], 0, True, 0), ([0], 0, True, 0), ([0, 1], 3, False, 3)):
+            mem, bld, conn, emitted, sc = world(live)
+            o = C.Obj(qc, {}, "self")
+            # the allocation commands are recorded, not built (they are the subject of other rules)
+            sc.overrides["_build_cmds_new_qubit"] = lambda qubit_id=None, *a_, **k_: emitted.append(qubit_id if qubit_id is not None else (a_[0] if a_ else None))
+            label = f"Qubit(virtual_address={va}, add_new_command={add}) with handles {live} live"
+            try:
+                C.Interp(repo, ctx.ev, sc, qc).call_function(qc.module, init, [conn], {"add_new_command": add, "virtual_address": va}, self_obj=o)
+            except C.EvalRaise as ex_:
+                res["init"] = (False, f"{label} raises {ex_}")
+                break
+            got_id = o.fields.get("_qubit_id")
+            if got_id != want_id:
+                res["init"] = (False, f"{label} gets id {got_id!r}, expected {want_id} ({'the lowest id no live handle holds' if va is None else 'the id that was asked for'})")
+                break
+            if emitted != ([want_id] if add else []):
+                res["init"] = (False, f"{label} emits allocation commands for {emitted}")
+                break
+            if count_of(mem, o) != 1 or o.fields.get("_active") is not True:
+                res["init"] = (False, f"after {label} the handle is listed {count_of(mem, o)} times as active, _active={o.fields.get('_active')!r}")
+                break
+            if setter is not None and live == [1]:
+                steps = []
+                for val in (False, False, True, True, False):
+                    C.Interp(repo, ctx.ev, sc, qc).call_function(qc.module, setter, [val], {}, self_obj=o)
+                    steps.append((val, o.fields.get("_active"), count_of(mem, o)))
+                if any(not (flag is val and listed == (1 if val else 0)) for val, flag, listed in steps):
+                    res["setter"] = (False, f"setting active to False, False, True, True, False gives (value, flag, times listed) = {steps}")
+    except AnalysisError as ex_:
+        ctx.error("C09.I", f"Qubit.__init__ / active setter cannot be evaluated: {ex_}")
+    ctx._c09_qubit_handle = res
+    return res
 
 
 def run(ctx):
